@@ -57,10 +57,13 @@ Fixpoint repeat_magic (n : nat) (cur : bytes) : bytes :=
             end
   end.
 
+(** RFC 768 / RFC 8200 section 8.1: a UDP checksum that computes to zero is transmitted as all ones (a zero
+    field means "no checksum", which IPv6 receivers must discard) *)
+Definition udp_ck (c : Z) : Z := if c =? 0 then 65535 else c.
 Definition udp_segment (src dst : bytes) (sport dport : Z) (payload : bytes) : bytes :=
   let l := 8 + len payload in
   let s0 := u16b sport ++ u16b dport ++ u16b l ++ [0; 0] ++ payload in
-  put16 6 (cksum s0 (pseudo src dst 17 l)) s0.
+  put16 6 (udp_ck (cksum s0 (pseudo src dst 17 l))) s0.
 
 Definition udp4_id (ttl : Z) : Z := (41821 + ttl) mod 65536.
 Definition udp4_probe (src dst : bytes) (sport dport ttl : Z) : bytes :=
